@@ -3,6 +3,7 @@ mod irgen;
 mod dynval;
 mod ops;
 mod run;
+mod svc;
 mod util;
 
 use run::Tier;
@@ -50,6 +51,8 @@ fn main() {
                 "C13" => run::finish(ops::c13::cases(seed, tier), &driver, &out, seed, tier, ops::c13::RULE, serde_json::json!({})),
                 "C17" => run::finish(ops::c17::cases(seed, tier), &driver, &out, seed, tier, ops::c17::RULE, serde_json::json!({})),
                 "C10" => run::finish(ops::c10::cases(seed, tier), &driver, &out, seed, tier, ops::c10::RULE, serde_json::json!({})),
+                "C19" => run::finish(ops::ep::cases("C19", seed, tier), &driver, &out, seed, tier, ops::ep::RULE_C19, serde_json::json!({})),
+                "C09" => run::finish(ops::ep::cases("C09", seed, tier), &driver, &out, seed, tier, ops::ep::RULE_C09, serde_json::json!({})),
                 "C14" => run::finish(ops::c14::cases(seed, tier), &driver, &out, seed, tier, ops::c14::RULE, serde_json::json!({})),
                 "C07" => run::finish(ops::c07::cases(seed, tier), &driver, &out, seed, tier, ops::c07::RULE, serde_json::json!({})),
                 _ => Err(format!("unknown property {}", prop)),
